@@ -63,6 +63,22 @@ type outcome struct {
 	events []event
 	end    time.Duration
 	ctxErr error
+	// pauses the policy granted, in order (recorded by a pass-through wrapper around the policy)
+	computed []time.Duration
+}
+
+// recPolicy hands every question on to the policy under test and notes the pauses it grants.
+type recPolicy struct {
+	inner retry.Policy
+	log   *[]time.Duration
+}
+
+func (r *recPolicy) Retry(attempt int, resp *http.Response, err error) (time.Duration, error) {
+	d, e := r.inner.Retry(attempt, resp, err)
+	if e == nil && d >= 0 {
+		*r.log = append(*r.log, d)
+	}
+	return d, e
 }
 
 // runCall performs the call under test once against f (which either chooses
@@ -76,7 +92,8 @@ func runCall(cf cfg, f *fake, cancelAt time.Duration, deadline bool) outcome {
 		Backoff:   retry.ExponentialBackoff(p.backoff, p.factor, p.jitter),
 		MinWait:   p.minW, MaxWait: p.maxW, MaxRetry: cf.mr,
 	}
-	rt := &retry.Transport{Base: f, Policy: func() retry.Policy { return policy }}
+	var computed []time.Duration
+	rt := &retry.Transport{Base: f, Policy: func() retry.Policy { return &recPolicy{inner: policy, log: &computed} }}
 	ac := &auth.Client{
 		Client:     &http.Client{Transport: &sendTap{next: rt, f: f}},
 		Credential: auth.StaticCredential(regHost, auth.Credential{Username: "user", Password: "pass"}),
@@ -154,5 +171,6 @@ func runCall(cf cfg, f *fake, cancelAt time.Duration, deadline bool) outcome {
 	out.end = time.Since(f.t0)
 	out.events = f.events
 	out.ctxErr = ctx.Err()
+	out.computed = computed
 	return out
 }
